@@ -661,6 +661,11 @@ def run_db(rec, g, only=None):
         if not check_constructor(rec, bm, yy, xx, case0):
             continue
         ref = ref_of(bm)
+        if only is None or only.get("obs") == "batch":
+            for x2b in (-1.0, 1.0):
+                check_batch(rec, bm, obs, x2b, g, p)
+            if only is not None:
+                continue
         for j, yo in enumerate(obs):
             if only is not None and only["obs"] != j:
                 continue
@@ -692,6 +697,42 @@ def run_db(rec, g, only=None):
                     if meth in (None, "predict_quantiles"):
                         check_quantiles(rec, bm, yo, x2, taus,
                                         dict(case, method="predict_quantiles"), sig)
+
+
+def check_batch(rec, bm, obs, x2, g, p):
+    """predict() on a batch of observations must give, row by row, what it gives for each row alone
+    (rows with and without support mixed in both orders)."""
+    obs = np.asarray(obs)
+    if obs.shape[0] < 2:
+        return
+    case = {"g": g, "perm": p, "obs": "batch", "x2": x2, "method": "predict-batch"}
+    _state["case"] = case
+    singles = []
+    try:
+        for yo in obs:
+            xs, sg = bm.predict(yo.reshape(1, -1), x2)
+            singles.append((float(np.ravel(xs)[0]), float(np.ravel(sg)[0])))
+        for order in (np.arange(obs.shape[0]), np.arange(obs.shape[0])[::-1]):
+            rec.ev()
+            rec.count("predict.batch_calls")
+            xs, sg = bm.predict(obs[order], x2)
+            xs, sg = np.ravel(xs).astype(float), np.ravel(sg).astype(float)
+            want = np.array([singles[k] for k in order])
+            if xs.shape[0] != len(order) or not (
+                    np.array_equal(xs, want[:, 0], equal_nan=True)
+                    and np.array_equal(sg, want[:, 1], equal_nan=True)):
+                bad = [int(k) for k in range(min(len(order), xs.shape[0]))
+                       if not (np.array_equal(xs[k], want[k, 0], equal_nan=True)
+                               and np.array_equal(sg[k], want[k, 1], equal_nan=True))][:3]
+                rec.violation("bmci-batch-differs", case,
+                              {"why": "a row of a batch differs from the same observation alone",
+                               "rows": bad, "batch": [float(xs[k]) for k in bad],
+                               "alone": [float(want[k, 0]) for k in bad]})
+                return
+        if any(np.isnan(a) for a, _ in singles) and not all(np.isnan(a) for a, _ in singles):
+            rec.count("predict.batch_mixed_support")
+    except Exception as exc:
+        rec.violation("bmci-exception", case, {"method": "predict (batch)", "exception": repr(exc)})
 
 
 def shrink(g, v):
